@@ -17,7 +17,7 @@ TIMEOUT_MS = {"quick": 60000, "thorough": 300000}
 
 
 def tasks(tier):
-    n = 2 if tier == "quick" else 3
+    n = 2 if tier == "quick" else 4
     t = [
         ("t_null_regimes", {"n_grains": n + 1}),
         ("t_dispatch", {"n_grains": 2}),
